@@ -705,7 +705,7 @@ func (g *c11G) deliver(b []byte) {
 			b = b[i+1:]
 			g.send(seg)
 			g.pend = append(g.pend, seg...)
-			if c11LitRe.Match(seg) || c11IdleTailRe.Match(seg) || len(g.pend) > 1<<20 {
+			if c11LitRe.Match(seg) || c11IdleTailRe.Match(seg) || !bytes.HasSuffix(seg, []byte("\r\n")) || len(g.pend) > 1<<20 {
 				g.flushBurst()
 			}
 		}
@@ -763,7 +763,7 @@ func (g *c11G) match(b []byte, sendNow bool) {
 				g.send(b)
 			}
 			g.note(b)
-			return
+			break
 		}
 		seg := b[:i+1]
 		b = b[i+1:]
@@ -1049,6 +1049,28 @@ func (g *c11G) lineEnd() {
 	x, e := g.x, g.x.e
 	x.lines++
 	e.St.Checks++
+	if p, _ := g.lineTag(); p == "*" && g.state == c11Line {
+		// gluon takes "*" for a tag (the list wildcards are missing from its atom
+		// specials: C10's business) and answers "* OK ...", which no client can tell
+		// from untagged data: such a line is not judged
+		e.St.Probes["star_tag_line"]++
+		if c11LitRe.Match(g.tail) && (g.credit > 0 || (len(g.q) > 0 && g.q[0].kind == 2)) {
+			if g.credit > 0 {
+				g.credit--
+			} else {
+				g.pop()
+			}
+			g.state, g.litN = c11Lit, c11Atoi(c11LitRe.FindSubmatch(g.tail)[1])
+			x.lits++
+			return
+		}
+		if len(g.q) > 0 && g.q[0].kind != 2 && (g.q[0].tag == "*" || g.q[0].tag == "") {
+			g.pop()
+		}
+		g.lastLogout = g.bye && c11LogoutRe.Match(g.head) && g.lineLen == len(g.head)
+		g.resetLine()
+		return
+	}
 	mayCont := c11LitRe.Match(g.tail) || (c11IdleRe.Match(g.head) && g.lineLen == len(g.head))
 	it := g.pop()
 	for it != nil && it.kind == 2 && !mayCont && len(g.pend) == 0 && x.sc.C("burst") == 1 && g.state == c11Line {
@@ -1311,6 +1333,7 @@ func (g *c11G) disconnect(how int, why string) {
 			}
 		}
 	}
+	x.quiesce("before-disconnect")
 	x.logf("-- connection %s: client %s (%s), state=%d literal left=%d line so far=%d bytes", g.s.Label, []string{"EOF", "RESET"}[how], why, g.state, g.litN, g.lineLen)
 	e.Tr.Event("disconnect", how, g.state, g.lineLen)
 	g.eofSent = true
